@@ -5,7 +5,12 @@ CONSTANTS
   ModeCounts = {0, 1, 2, 3}
   WidthOpts = {"none", "given", "zero"}
   LevelOpts = {"fixed", "auto", "adjust", "autoadjust"}
+  W2s = {0, 1, 2}
 INVARIANT ClassKept
+INVARIANT NothingFreeWithoutSupport
+INVARIANT LevelsLayout
+INVARIANT RegionRule
+INVARIANT WidthSet
 INVARIANT ConstraintsFrozen
 INVARIANT BoundsLayout
 INVARIANT RadiusWidthBounded
